@@ -49,6 +49,9 @@ ARCH = {
     'gex_roundup': _p(banner='SSH-2.0-libssh_0.9.6', kex=['diffie-hellman-group-exchange-sha256'], key=['rsa-sha2-256'], keys={'ssh-rsa': {'bits': 4096}},
                       gex={'sizes': [1536, 3072], 'style': 'roundup'}),
     'rate': _p(banner='SSH-2.0-OpenSSH_9.6', kex=['curve25519-sha256', 'diffie-hellman-group14-sha256'], key=['ssh-ed25519'], keys={'ssh-ed25519': {}}),
+    # lines before the identification string (a login notice), on every connection
+    'greeter': _p(banner='SSH-2.0-OpenSSH_8.9p1 Ubuntu-3ubuntu0.6', pre=['Welcome to the gateway.', 'Authorised use only.'], kex=['curve25519-sha256', 'kex-strict-s-v00@openssh.com'],
+                  key=['ssh-ed25519', 'rsa-sha2-512'], keys={'ssh-ed25519': {}, 'ssh-rsa': {'bits': 3072}}),
     'ssh1': {'banner': 'SSH-1.5-OpenSSH_3.4', 'ssh2': False, 'ssh1': {'cmask': 0x4c, 'amask': 0x3c, 'hkey_bits': 1024, 'skey_bits': 768}},
     # answers every identification line, SSH-2 or SSH-1, with the version-mismatch notice and hangs up (a gateway / tarpit)
     'mismatch_only': {'banner': 'SSH-1.5-LegacyGate_1.0', 'ssh2': False, 'ssh1': None},
@@ -190,6 +193,13 @@ def cases(seed, tier):
     for arch in archs:
         for opts in TEXT_OPTS:
             yield {'arch': arch, 'faults': [], 'opts': list(opts), 'timeout': 2, 'net': {'rtt_us': 200, 'seg': {'mode': 'msg'}}, 'pseed': 1}
+    # ... and the same honest peers under every way of cutting their bytes into deliveries (lines cut anywhere, several messages in one piece)
+    for arch in archs:
+        for j, seg in enumerate(({'mode': 'byte', 'banner_atomic': False}, {'mode': 'mss', 'mss': 7, 'banner_atomic': False}, {'mode': 'mss', 'mss': 64, 'banner_atomic': False},
+                                 {'mode': 'rand', 'cuts': 6, 'banner_atomic': False}, {'mode': 'rand', 'cuts': 2, 'banner_atomic': False})):
+            rng = gen.case_rng(seed, ID, arch, 'cut', j)
+            yield {'arch': arch, 'faults': [], 'opts': ['-n'], 'timeout': 2, 'net': {'rtt_us': rng.choice([40, 200, 8000]), 'gap_us': rng.choice([0, 300, 20000]), 'seg': seg},
+                   'pseed': rng.getrandbits(32)}
     # well-formed messages that carry hostile values: a group whose modulus / generator are tiny or degenerate (the tool computes with them)
     for arch in archs:
         tr, _n, _ = transcript(arch)
